@@ -154,6 +154,22 @@ let handle (fields : string list) : string * string =
       | None -> "ok"
       | Some i -> Printf.sprintf "fail:monitor-rejects-event-%d" (int_of_nat i) in
     (m, verdict)
+  | "process16" :: bits :: redir :: idle :: live :: items :: impl :: [] ->
+    let cfg = parse_cfg bits redir idle in
+    let live = if live = "-" then [] else List.map bytes_of_hex (split_on ',' live) in
+    let items = Model.resolve_dials live cfg Model.tstate0 (parse_items items) in
+    let m = obs_of_events (Model.run cfg items) (int_of_nat (Model.consumed cfg items)) in
+    let (ievs, _) = events_of_obs impl in
+    let r = cfg.c_redir in
+    let rd = Model.spec_redir r.rf_clipboard r.rf_port r.rf_drive r.rf_printer r.rf_pnp r.rf_disable_all r.rf_enable_all in
+    let bad = List.filter (fun e -> match e with
+        | Resp (ty, st, raw) -> not (Model.c16_resp_ok rd cfg.c_idle ty st raw)
+        | _ -> false) ievs in
+    let verdict = match bad with
+      | [] -> "ok"
+      | Resp (ty, _, _) :: _ -> Printf.sprintf "fail:malformed-or-untruthful-response-type-%d" (int_of_n ty)
+      | _ -> "fail:response" in
+    (m, verdict)
   | k :: _ -> failwith ("unknown kind " ^ k)
   | [] -> failwith "empty line"
 
